@@ -9,7 +9,7 @@ import numpy as np
 from dask._task_spec import Alias, List, Task, TaskRef
 from dask_array._expr import ArrayExpr
 from dask_array._utils import meta_from_array
-from dask_array._core_utils import concatenate3 as concatenate_shaped
+from dask_array._core_utils import concatenate3
 from dask_array.slicing._utils import parse_assignment_indices, setitem
 from dask.base import is_dask_collection
 from dask.core import flatten
@@ -361,6 +361,21 @@ class ConcatenateArrayChunks(ArrayExpr):
                 self.array.numblocks,
             )
         }
+
+
+def concatenate_shaped(arrays, numblocks):
+    """Concatenate a flat, C-ordered list of blocks laid out on the grid ``numblocks``."""
+
+    def nest(shape, seq):
+        if len(shape) <= 1:
+            return list(seq)
+        n = len(seq) // shape[0]
+        return [nest(shape[1:], seq[i * n : (i + 1) * n]) for i in range(shape[0])]
+
+    arrays = list(arrays)
+    if not numblocks:
+        return arrays[0]
+    return concatenate3(nest(tuple(numblocks), arrays))
 
 
 def concatenate_array_chunks_expr(x):
